@@ -11,17 +11,19 @@ import (
 // Tags of constructs that known findings make nondeterministic (the generator avoids them in the
 // main workload while the finding is open and exercises them in a small poisoned workload).
 const (
-	TagXmodOverlap  = "xmod-overlap"     // same function/global names in several modules (KF-c14-xmod-resolution)
-	TagCapConflict  = "cap-conflict"     // impl block selecting capabilities that conflict (KF-c14-capability-conflict)
-	TagCastMulti    = "cast-multi-bad"   // runtime cast of an object with >= 2 offending fields (KF-c14-cast-error-order)
-	TagInitOrder    = "init-order"       // >= 2 imported modules: order of module initialisation (KF-c14-init-order)
-	TagMangle       = "mangle-collision" // locals whose mangled names collide (x + 10 vs x1 + 0)
-	TagMultiModule  = "multi-module"     // informational
+	TagXmodOverlap  = "xmod-overlap"      // same function/global names in several modules (KF-c14-xmod-resolution)
+	TagCapConflict  = "cap-conflict"      // impl block selecting capabilities that conflict (KF-c14-capability-conflict)
+	TagCastMulti    = "cast-multi-bad"    // runtime cast of an object with >= 2 offending fields (KF-c14-cast-error-order)
+	TagInitOrder    = "init-order"        // >= 2 imported modules: order of module initialisation (KF-c14-init-order)
+	TagCapture      = "capturing-closure" // a function literal that reads a local of its parent (KF-c14-closure-slot-order)
+	TagMangle       = "mangle-collision"  // locals whose mangled names collide (x + 10 vs x1 + 0)
+	TagMultiModule  = "multi-module"      // informational
 	KFXmod          = "KF-c14-xmod-resolution"
 	KFCapConflict   = "KF-c14-capability-conflict"
 	KFCastOrder     = "KF-c14-cast-error-order"
 	KFInitOrder     = "KF-c14-init-order"
 	KFMangleCollide = "KF-c14-mangle-collision"
+	KFCapture       = "KF-c14-closure-slot-order"
 )
 
 // Built is one generated program.
@@ -39,6 +41,7 @@ type Poison struct {
 	CastMulti   bool
 	MultiSingl  bool // singletons in several modules (host call order = init order)
 	Mangle      bool
+	Capture     bool
 }
 
 type sb struct{ strings.Builder }
@@ -339,7 +342,13 @@ func famLocals(r *fw.Rng, p Poison) Built {
 		}
 		b.f("    total\n}\n")
 	}
-	b.f("fn main() {\n")
+	if p.Capture {
+		tags = append(tags, TagCapture)
+		b.f("fn mk(p: int) -> int {\n    let a = 10;\n    let b = 20;\n    let c = p;\n    let f = fn(k: int) -> int { k + c + b };\n    f(1) + a\n}\n")
+	} else {
+		b.f("fn mk(p: int) -> int {\n    let a = 10;\n    let f = fn(k: int, c: int, b: int) -> int { k + c + b };\n    f(1, p, 20) + a\n}\n")
+	}
+	b.f("fn main() {\n    println(mk(5));\n")
 	for f := 0; f < nf; f++ {
 		b.f("    println(f%d(%d, %d));\n", f, f+1, 2)
 	}
